@@ -329,6 +329,8 @@ pub enum SlotKind {
     Multi,
     /// between two statements: multi-line trivia that contains at least one newline
     StmtSep,
+    /// between a label and the instruction it labels: non-empty single-line trivia, or as StmtSep
+    LabelSep,
     /// before the very first statement / after the last one: multi-line, may be empty
     Edge,
 }
@@ -693,7 +695,17 @@ impl<'a> Renderer<'a> {
         for (i, s) in body.iter().enumerate() {
             if i > 0 {
                 let ind = self.indent_str();
-                self.slot(SlotKind::StmtSep, "stmt-sep", &format!("\n{}", ind));
+                // `label: instruction` on one line is the usual layout of assembly source
+                let after_label = matches!(body[i - 1], Stmt::Label { block: None, .. }) && matches!(s, Stmt::Instr { .. } | Stmt::Data { .. });
+                // two statements may share a line where the first cannot swallow the second (no operand)
+                let after_implied = matches!(&body[i - 1], Stmt::Instr { operand: None, mn, .. } if !matches!(mn.to_lowercase().as_str(), "asl" | "lsr" | "rol" | "ror")) && matches!(s, Stmt::Instr { .. } | Stmt::Data { .. });
+                if after_label {
+                    self.slot(SlotKind::LabelSep, "label-sep", &format!("\n{}", ind));
+                } else if after_implied {
+                    self.slot(SlotKind::LabelSep, "stmt-sep-after-implied", &format!("\n{}", ind));
+                } else {
+                    self.slot(SlotKind::StmtSep, "stmt-sep", &format!("\n{}", ind));
+                }
             }
             self.stmt(s);
         }
